@@ -284,4 +284,29 @@ def slice_let(src, it, name, nth=0, count=None):
         depth += mbody[j] in "([{"
         depth -= mbody[j] in ")]}"
         j += 1
-    return re.sub(r"\s+", " ", body[mm.end():j].strip()).replace(" .", ".")
+    return squash(body[mm.end():j], mbody[mm.end():j])
+
+
+def squash(text, masked):
+    """text with comments removed (located through the masked copy) and whitespace collapsed"""
+    out = []
+    i = 0
+    n = len(text)
+    while i < n:
+        if text.startswith("//", i) and masked[i:i + 2] == "  ":
+            j = text.find("\n", i)
+            i = n if j < 0 else j
+            continue
+        if text.startswith("/*", i) and masked[i:i + 2] == "  ":
+            j = text.find("*/", i)
+            i = n if j < 0 else j + 2
+            continue
+        out.append(text[i])
+        i += 1
+    return re.sub(r"\s+", " ", "".join(out).strip()).replace(" .", ".")
+
+
+def fn_body_text(src, it):
+    """body of a fn item, comments removed, whitespace collapsed"""
+    body = src[it.body_open + 1:it.body_close]
+    return squash(body, mask(body))
